@@ -82,6 +82,15 @@ def gen_pool_plan(rng, tier, with_shutdown=True):
     p.update(strategy=gen_strategy(rng), line_p=rng.choice([0, 0, 0.005]), points=rng.choice([0, 2, 4]), time_jump_p=rng.choice([0, 0, 0.05]))
     if p.get('saturate'):
         p['line_p'] = rng.choice([0.01, 0.05, 0.2])
+    if rng.random() < 0.3:
+        # stalled threads: a borrower, the loop thread or an executor thread is descheduled for a while between two lines of
+        # borrow_connection / return_connection / _replace / shutdown / _on_timeout / _query / process_msg
+        p.update(stall=[rng.choice([0.3, 0.6]), rng.choice([0.02, 0.1, 0.4])], line_p=rng.choice([0.005, 0.02]), points=rng.choice([4, 8]))
+    if rng.random() < 0.3:
+        # focused stall: one pool function is singled out; a thread running it is descheduled at some of its lines long enough for
+        # a replacement, a response or a timeout to complete in between
+        p['focus_stall'] = [rng.choice(['borrow_connection', 'borrow_connection', 'return_connection', '_replace', 'shutdown', '_on_timeout', '_query']),
+                            rng.choice([0.05, 0.15, 0.3]), rng.choice([0.01, 0.05, 0.2])]
     if rng.random() < 0.35:
         p['session_keyspace'] = 'ks1'
         p['use_delay'] = rng.choice([0.0, 0.02, 0.1, 0.4])
